@@ -260,8 +260,8 @@ def rule_refmut(body, rules):
         fields.append(f)
     rest = body[:m.start()] + body[m.end():]
     for f in fields:
-        rest, _ = sub_outside_comments(r'(?<![\w.])\*\s*' + f + r'\b', 'self.' + f, rest)
-        rest, _ = sub_outside_comments(r'(?<![\w.])' + f + r'\b(?!\s*:)', 'self.' + f, rest)
+        rest, _ = sub_outside_comments(r'(?<!\w)(?<![^.]\.)\*\s*' + f + r'\b', 'self.' + f, rest)
+        rest, _ = sub_outside_comments(r'(?<!\w)(?<![^.]\.)' + f + r'\b(?!\s*:)', 'self.' + f, rest)
     rules.hit('R-refmut')
     return rest
 
@@ -447,7 +447,10 @@ class Unit:
             else:
                 self.emit('    { unimplemented!() }', dict(kind='tmpl', label=label, section='external'))
                 self.external_labels.append(label)
-            self.fn_labels[label] = dict(start=start, end=len(self.lines))
+            if body is None or not vacuity:
+                pass
+            if kv.get('body') != 'external':
+                self.fn_labels[label] = dict(start=start, end=len(self.lines))
             return
         body = self.inject(body, sections, label)
         for (ln, o) in body:
@@ -507,6 +510,30 @@ class Unit:
                     if not m:
                         raise LostAnchor('fn %s: loop #%d is not a for loop' % (label, k))
                     inserts.append((kw + m.end(), [' %s: ' % key[2]], 'loopiter'))
+                    if len(key) > 3 and key[3]:
+                        # R-looppat: `for _ in` -> `for <var> in` (naming an ignored binding)
+                        pm = re.match(r'for\s+(_)\s+in\b', bb[kw:bo])
+                        if not pm:
+                            raise LostAnchor('fn %s: loop #%d pattern is not `_`' % (label, k))
+                        inserts.append((kw + pm.start(1), [key[3]], 'loopiter'))
+                        self.rules.hit('R-looppat')
+            elif isinstance(key, tuple) and key[0] == 'arm':
+                # match arm  `PAT => EXPR,`  ->  `PAT => { <lines> EXPR },`   (single-line arms only)
+                _, nth, anchor = key
+                pos, start = -1, 0
+                for _i in range(nth + 1):
+                    pos = bb.find(anchor, start)
+                    if pos < 0:
+                        raise LostAnchor('fn %s: arm anchor %r (#%d) not found' % (label, anchor, nth))
+                    start = pos + 1
+                ls = body.rfind('\n', 0, pos) + 1
+                le = body.find('\n', pos)
+                line_b = bb[ls:le]
+                m2 = re.match(r'^(\s*.*?=>\s*)(.*?)(,?)\s*$', line_b)
+                if not m2 or '{' in m2.group(2):
+                    raise LostAnchor('fn %s: arm %r is not a single-line `PAT => EXPR,`' % (label, anchor))
+                inserts.append((ls + m2.end(1), ['{'] + lines + [''], 'hint'))
+                inserts.append((ls + m2.end(2), [' }'], 'loopiter'))
             elif isinstance(key, tuple) and key[0] in ('before', 'after'):
                 _, nth, anchor = key
                 pos, cnt = -1, -1
@@ -618,10 +645,10 @@ class Unit:
                     elif t.startswith('//@loop '):
                         a = parse_kv(t[8:])
                         k = [x for x in a if x.isdigit()]
-                        cur = ('loop', int(k[0]), a.get('iter'))
+                        cur = ('loop', int(k[0]), a.get('iter'), a.get('var'))
                         sections[cur] = []
-                    elif t.startswith('//@before ') or t.startswith('//@after '):
-                        m = re.match(r'//@(before|after)\s+(\d+)\s+"(.*)"\s*$', t)
+                    elif t.startswith('//@before ') or t.startswith('//@after ') or t.startswith('//@arm '):
+                        m = re.match(r'//@(before|after|arm)\s+(\d+)\s+"(.*)"\s*$', t)
                         if not m:
                             raise Unsupported('bad directive: ' + t)
                         cur = (m.group(1), int(m.group(2)), m.group(3))
@@ -739,8 +766,7 @@ def classify(unit, res):
         else:
             # precondition failure whose call site is in template text (hint/lemma) is scaffolding
             if 'precondition not satisfied' in msg or 'possible arithmetic' in msg:
-                site = [s for s in e['spans'] if s['primary']] if 'possible' in msg else \
-                       [s for s in e['spans'] if not s['primary']] or e['spans']
+                site = [s for s in e['spans'] if s['primary']] or e['spans']
                 if site and all(s['origin'].get('kind') == 'tmpl' for s in site):
                     kind = 'A'
             if 'postcondition not satisfied' in msg:
